@@ -301,10 +301,10 @@ pub fn apply(op: &Op) {
             let p = lib(|| wk.into_raw());
             crate::exec::shared().phase = prev;
             if p != ap {
-                violate(View::Weak, "Weak::into_raw returned a pointer different from Weak::as_ptr");
+                crate::exec::violate_soft(View::Weak, "Weak::into_raw returned a pointer different from Weak::as_ptr");
             }
             if t != NONE && p as usize != wd.model.borrow().objs[t as usize].value_addr {
-                violate(View::Weak, &format!("Weak::into_raw of a Weak to object {} does not point at its value", t));
+                crate::exec::violate_soft(View::Weak, &format!("Weak::into_raw of a Weak to object {} does not point at its value", t));
             }
             wd.wraws.borrow_mut().push(p);
             wd.model.borrow_mut().wraws.push(t);
